@@ -81,12 +81,16 @@ class CFG:
         self.edges.setdefault(self.exit, [])
 
     def decided(self, cond):
-        """the leaf expression whose truth the terminator actually branches on (rightmost operand of && / ||)"""
+        """the expression whose truth the terminator actually branches on: for a short-circuit operator that clang lowered
+        into control flow this is its rightmost operand; a logical operator nested inside a call argument / `!!`
+        (mi_likely, mi_unlikely) is NOT lowered at this terminator and stays a compound condition (see facts())"""
         fn = self.fn
         i = cond
         while True:
-            j = fn.strip(i)
-            n = fn.nodes[j]
+            n = fn.nodes[i]
+            if n["k"] in ("ParenExpr", "ConstantExpr") or (n["k"] == "ImplicitCastExpr"):
+                i = n["c"][0]
+                continue
             if n["k"] == "BinaryOperator" and n["op"] in ("&&", "||"):
                 i = n["c"][1]
                 continue
@@ -131,7 +135,8 @@ class CFG:
 
     # ---- edge facts
     def fact(self, label):
-        """(expr, polarity) with leading `!` folded into the polarity; None for unconditional/switch edges"""
+        """(expr, polarity) with leading `!` folded into the polarity; None for unconditional/switch edges.
+        expr may be a compound `a && b` (see decided()); facts() gives the atomic facts it implies."""
         if label is None:
             return None
         cond, br = label
@@ -145,7 +150,29 @@ class CFG:
             pol = not pol
         return (i, pol)
 
-    # ---- reachability
+    def facts(self, label):
+        """all (expr, polarity) facts implied by taking the edge: a true conjunction makes every conjunct true, a false
+        disjunction makes every disjunct false"""
+        f = self.fact(label)
+        if f is None:
+            return []
+        out = []
+        fn = self.fn
+
+        def rec(i, pol):
+            i = fn.strip(i)
+            n = fn.nodes[i]
+            while n["k"] == "UnaryOperator" and n["op"] == "!":
+                i = fn.strip(n["c"][0])
+                n = fn.nodes[i]
+                pol = not pol
+            out.append((i, pol))
+            if n["k"] == "BinaryOperator" and ((n["op"] == "&&" and pol) or (n["op"] == "||" and not pol)):
+                rec(n["c"][0], pol)
+                rec(n["c"][1], pol)
+        rec(f[0], f[1])
+        return out
+
     # ---- correlated branches: a small amount of path sensitivity, sound by construction (it only removes paths
     # on which the same side-effect-free condition over unmodified locals would have to be both true and false)
     def _tracked(self):
@@ -345,12 +372,12 @@ class CFG:
         """None if every path from entry (or starts) to `target` crosses an edge whose fact satisfies
         fact_ok(expr, polarity); otherwise a witness path"""
         def edge_ok(lab, p, q):
-            f = self.fact(lab)
-            if f is None:
+            fs = self.facts(lab)
+            if not fs:
                 if lab is not None and isinstance(lab[1], tuple):
                     return not fact_ok(("switch", lab[0]), lab[1][1])
                 return True
-            return not fact_ok(f[0], f[1])
+            return not any(fact_ok(e, pol) for e, pol in fs)
         seen, prev = self.reach(starts or [self.entry], avoid=avoid, edge_ok=edge_ok, want_prev=True)
         if target in seen:
             return self.witness(prev, target)
